@@ -87,6 +87,8 @@ pub fn c18_case(rep: &mut Report, seed: u64, idx: u64, verbose: bool) {
             log: Rc::new(RefCell::new(Vec::new())),
             min_tsdr_bits: 11,
             max_tsdr_bits: 40,
+            // (long enough to land inside the reply window of the next probe)
+            late_spread_bits: 700,
             slot_bits: slot_bits as u64,
         }));
         devs.push(Dev { addr, dp, ident, core, script_pct: pct });
